@@ -1657,6 +1657,7 @@ class Ex:
             raise Unsupported("augmented assignment target")
 
     def inplace(self, op, cur, val, fr):
+        cur, val = self.resolve(cur), self.resolve(val)      # an optional value is decided (present / None) before it is used
         if self.is_arr(cur):
             return self.lib.arr_inplace(self, op, cur, val)
         if isinstance(cur, VRef):
